@@ -258,10 +258,15 @@ def _re_run(params, values):
         return [], "assume: callback index out of range"
     doc_a = DOC_A if not params.get("free_a") else DOC_A[:2] + values["a"] + DOC_A[3:]
     recs = []
+    import contextlib
+
+    native = no_tracing if not params.get("free_a") else contextlib.nullcontext
     try:
         out_a = md.render(doc_a)
-        solo_a = solo.render(doc_a)
-        solo_b = solo.render(DOC_B)
+        with native():
+            solo_a = solo.render(doc_a)
+        with no_tracing():
+            solo_b = solo.render(DOC_B)
     except Exception as e:
         return [exc_record(e, "reenter")], "raised"
     cb = "/".join(cbs[which][1:])
